@@ -684,6 +684,8 @@ class _Val(object):
 
 
 UNKNOWN = _Unknown()
+_BUILTIN_TYPES = {"tuple": tuple, "list": list, "dict": dict, "str": str, "bytes": bytes,
+                  "int": int, "bool": bool, "float": float}
 
 
 def evalv(expr, env):
@@ -692,6 +694,23 @@ def evalv(expr, env):
         return env[key]
     if isinstance(expr, ast.Constant):
         return expr.value
+    if isinstance(expr, ast.Name) and expr.id in _BUILTIN_TYPES:
+        return _BUILTIN_TYPES[expr.id]
+    if isinstance(expr, ast.Call) and isinstance(expr.func, ast.Name) and not expr.keywords \
+            and expr.func.id in ("type", "bool", "isinstance") and expr.args:
+        vals = [evalv(a, env) for a in expr.args]
+        if any(isinstance(v, _Unknown) for v in vals):
+            return UNKNOWN
+        try:
+            if expr.func.id == "type" and len(vals) == 1:
+                return type(vals[0])
+            if expr.func.id == "bool" and len(vals) == 1:
+                return bool(vals[0])
+            if expr.func.id == "isinstance" and len(vals) == 2:
+                return isinstance(vals[0], vals[1])
+        except Exception:
+            return UNKNOWN
+        return UNKNOWN
     if isinstance(expr, ast.UnaryOp) and isinstance(expr.op, ast.Not):
         v = evalv(expr.operand, env)
         return UNKNOWN if isinstance(v, _Unknown) else (not v)
